@@ -278,12 +278,16 @@ def prop(r):
     ctx = shared_ctx().clone()
     ctx._registered_accelerators = dict(ctx._registered_accelerators)
     ctx._registered_accelerators[acc.name] = lambda: acc
+    cfg0 = acc.streamer_config.data if hasattr(acc, "streamer_config") else None
+    overlong = [i for i, (p, s_) in enumerate(zip(r.get("patterns", []), cfg0.streamers)) if len(p["ub"]) > s_.temporal_dim] if cfg0 else []
     try:
         mod = parse(text, ctx)
         mod.verify()
     except Exception as e:
         from vlib.runner import HarnessError
 
+        if overlong and "exceeds streamer dimensionality" in str(e):
+            raise Reject("verifier refuses a pattern with more temporal dimensions than the streamer has")
         raise HarnessError(f"builder produced invalid IR: {e}\n{text}")
     from snaxc.transforms.convert_linalg_to_accfg import ConvertLinalgToAccPass
 
@@ -334,6 +338,14 @@ def prop(r):
         raise HarnessError(f"cannot evaluate setup values: {e}")
     ev = [e for e in m.trace if e[0] == "setup" and e[2]]
     vals = {n: (_u(v) if isinstance(v, int) else v) for n, v in ev[0][2]}
+    # a pattern with more temporal dimensions than the streamer that the verifier accepted: every dimension that has no register must
+    # be a single iteration, otherwise part of the address stream is lost
+    for i in overlong:
+        p_, s_ = r["patterns"][i], cfg0.streamers[i]
+        lost = [(d, p_["ub"][d], p_["ts"][d]) for d in range(s_.temporal_dim, len(p_["ub"])) if p_["ub"][d] != 1]
+        if lost:
+            raise Violation(f"{kind}:pattern-longer-than-streamer:dimensions-without-register-dropped",
+                            dict(streamer=i, pattern=p_, streamer_dims=s_.temporal_dim, dropped=lost, module=text))
     exp = expected_streamer_fields(acc, r)
     mism = []
     for n, want in exp.items():
@@ -530,6 +542,11 @@ def _pattern(draw, streamer_spec, primes, stride_base, full=None, allow_zero_ss=
             b = 1
         ub.append(b)
         ts.append(t)
+    if ln == nt and nt >= 1 and draw(st.integers(0, 11)) == 0:
+        # more temporal dimensions than the streamer has, but unit dimensions in front: the canonical form would fit
+        k = draw(st.integers(1, 2))
+        ub = [1] * k + ub
+        ts = [0] * k + ts
     ss = []
     for d in range(len(spatial)):
         if allow_zero_ss and draw(st.integers(0, 5)) == 0:
